@@ -122,7 +122,14 @@ func (c *Ctx) runPath(pi *PkgInfo, fo *types.Func, fd *ast.FuncDecl, ct *Contrac
 	for _, f := range fd.Type.Params.List {
 		for _, n := range f.Names {
 			if o, ok := info.Defs[n].(*types.Var); ok && o != nil {
-				bind(o, c.freshVal(o.Name(), o.Type(), fr.Ints, fr.Floats))
+				pv := c.freshVal(o.Name(), o.Type(), fr.Ints, fr.Floats)
+				if pv.K == VSlice {
+					// A-OFF0: a slice argument is taken to start at offset 0 of its backing array (its elements
+					// and length are what the callee can observe; aliasing with other arguments is excluded)
+					c.assume(Eq(pv.Off, IntLit(0)))
+					pv.Off = IntLit(0)
+				}
+				bind(o, pv)
 			}
 		}
 	}
